@@ -139,6 +139,55 @@ pub fn v_format1_usize(lit: &str, a: usize) -> (r: String)
     }
 }
 
+// ---------- R-fmt-write helpers: `write!(out, LIT, arg)` into a String whose *text* matters (the back end's type printer) ----------
+/// `write!(out, LIT)` for a literal without placeholders: appends the literal; writing to a `String` cannot fail
+#[verifier::external_body]
+pub fn v_write_lit(out: &mut String, lit: &str) -> (r: Result<(), std::fmt::Error>)
+    ensures r is Ok, final(out)@ == old(out)@ + lit@,
+{
+    use std::fmt::Write;
+    match lit {
+        "()" => write!(out, "()"),
+        "crate::" => write!(out, "crate::"),
+        "*const " => write!(out, "*const "),
+        "*mut " => write!(out, "*mut "),
+        "[" => write!(out, "["),
+        ", " => write!(out, ", "),
+        ")" => write!(out, ")"),
+        " -> " => write!(out, " -> "),
+        "::std::ffi::c_void" => write!(out, "::std::ffi::c_void"),
+        _ => unreachable!("R-fmt-write applied to an unknown literal"),
+    }
+}
+#[verifier::external_body]
+pub fn v_write1_path(out: &mut String, lit: &str, a: &crate::grammar::ItemPath) -> (r: Result<(), std::fmt::Error>)
+    ensures r is Ok, final(out)@ == old(out)@ + crate::verif_specs::spec_fmt1(lit@, crate::verif_specs::spec_display_path(*a)),
+{
+    use std::fmt::Write;
+    match lit { "{}" => write!(out, "{}", a), _ => unreachable!("R-fmt-write applied to an unknown literal") }
+}
+#[verifier::external_body]
+pub fn v_write1_usize(out: &mut String, lit: &str, a: &usize) -> (r: Result<(), std::fmt::Error>)
+    ensures r is Ok, final(out)@ == old(out)@ + crate::verif_specs::spec_fmt1(lit@, crate::verif_specs::spec_display_usize(*a)),
+{
+    use std::fmt::Write;
+    match lit { "; {}]" => write!(out, "; {}]", a), _ => unreachable!("R-fmt-write applied to an unknown literal") }
+}
+#[verifier::external_body]
+pub fn v_write1_cc(out: &mut String, lit: &str, a: &crate::semantic::types::CallingConvention) -> (r: Result<(), std::fmt::Error>)
+    ensures r is Ok, final(out)@ == old(out)@ + crate::verif_specs::spec_fmt1(lit@, crate::verif_specs::spec_cc_as_str(*a)),
+{
+    use std::fmt::Write;
+    match lit { "unsafe extern \"{calling_convention}\" fn (" => write!(out, r#"unsafe extern "{a}" fn ("#), _ => unreachable!("R-fmt-write applied to an unknown literal") }
+}
+#[verifier::external_body]
+pub fn v_write1_string(out: &mut String, lit: &str, a: &String) -> (r: Result<(), std::fmt::Error>)
+    ensures r is Ok, final(out)@ == old(out)@ + crate::verif_specs::spec_fmt1(lit@, a@),
+{
+    use std::fmt::Write;
+    match lit { "{field}: " => write!(out, "{a}: "), _ => unreachable!("R-fmt-write applied to an unknown literal") }
+}
+
 // ---------- R-std helpers (verified: plain loops with the std-documented meaning) ----------
 /// `s.iter().map(f).collect::<Result<Vec<_>, _>>()`: applies f in order, stops at the first Err
 pub fn v_try_map_collect<T, U, E, F: Fn(&T) -> Result<U, E>>(s: &[T], f: F) -> (r: Result<Vec<U>, E>)
@@ -287,6 +336,12 @@ pub assume_specification [usize::is_power_of_two] (n: usize) -> (r: bool)
 impl vstd::std_specs::cmp::PartialEqSpecImpl for crate::semantic::types::Function {
     open spec fn obeys_eq_spec() -> bool { true }
     open spec fn eq_spec(&self, other: &crate::semantic::types::Function) -> bool { *self == *other }
+}
+
+/// derived `PartialEq` of `ItemPathSegment` is structural (A5); with vocab/modules.rs `axiom_segment_ext` a segment is its text
+impl vstd::std_specs::cmp::PartialEqSpecImpl for crate::grammar::ItemPathSegment {
+    open spec fn obeys_eq_spec() -> bool { true }
+    open spec fn eq_spec(&self, other: &crate::grammar::ItemPathSegment) -> bool { *self == *other }
 }
 
 /// derived `PartialEq` of the field-less enum `ItemCategory` is structural (A5)
